@@ -116,7 +116,7 @@ def make_action_labels(rng, m):
 def random_spec(rng, family="any", n_max=8, a_max=4, label_kind=None, uniform_actions=False,
                 allow_zero_entries=True, allow_live_absorbing=True, gamma=None,
                 reward_sign=None, min_states=1, allow_dup_actions=True, allow_implicit=True,
-                near_absorbing=False, reward_scale=1.0, trap_entry=False):
+                near_absorbing=False, reward_scale=1.0, trap_entry=False, near_dup_actions=False):
     """families:
        any        gamma<1, arbitrary structure, rewards of either sign
        proper     every policy reaches an absorbing state w.p.1 (hidden rank order), any gamma
@@ -291,6 +291,18 @@ def random_spec(rng, family="any", n_max=8, a_max=4, label_kind=None, uniform_ac
             sp.kind[(s, a)] = rng.choice(["dict", "det"])
             sp.R[(s, a, t)] = -1000.0
             sp.meta["trap_entry"] = (repr(s), repr(a))
+    if near_dup_actions:
+        # an action that is a copy of another one except that it pays a hair less (relative 1e-7): the two
+        # action values differ, but only in the 7th digit -- "exactly the maximal-Q actions" is then sharp
+        cand = [states[i] for i in idx if i not in absorbing and i not in trap and len(sp.acts[states[i]]) >= 2]
+        for s in cand[:2]:
+            a0, a1 = sp.acts[s][0], sp.acts[s][1]
+            sp.P[(s, a1)] = list(sp.P[(s, a0)])
+            sp.kind[(s, a1)] = sp.kind[(s, a0)]
+            for t, _ in sp.P[(s, a0)]:
+                r = sp.R[(s, a0, t)]
+                sp.R[(s, a1, t)] = r - 1e-7 * max(1.0, abs(r))
+            sp.meta.setdefault("near_dup", []).append((repr(s), repr(a0), repr(a1)))
     if reward_scale != 1.0:
         for key in sp.R:
             sp.R[key] = sp.R[key] * reward_scale
